@@ -110,6 +110,8 @@ class C09Run(StateRun):
         self.pending_answers = []   # (consult, deferred) answers to fire later
         self.vias = []
         self.free_sports = []
+        self.via_grace = 80
+        self.via_moves_left = ch.draw(10, 'viamoves') if self.mode == 'via' else 0
         self.first_setconf_acked_before = {}
         self.via_left = 1 + ch.draw(4, 'nvia') if self.mode == 'via' else 0
         self.scripted_ops = 3 if self.mode == 'scripted' else 0
@@ -125,8 +127,15 @@ class C09Run(StateRun):
         sim.add_source(self.c09_actions)
 
     def finished(self):
-        return (StateRun.finished(self) and self.via_left <= 0 and not self.pending_answers and
-                (self.mode != 'scripted' or self.attacher_installed))
+        done = (StateRun.finished(self) and self.via_left <= 0 and not self.pending_answers and
+                (self.mode != 'scripted' or self.attacher_installed) and not (self.boot and self.via_stream_acts()))
+        if done and self.mode == 'via' and self.boot and self.via_grace > 0 and self.via_moves_left > 0 and \
+                any(not v['result'] for v in self.vias):
+            # connections through circuits are still being made: give their SOCKS exchanges (and then their streams)
+            # a bounded number of further steps
+            self.via_grace -= 1
+            return False
+        return done
 
     # ------------------------------------------------------------------ world overrides
     def w_stream_set(self, s, status, reason=None):
@@ -138,6 +147,11 @@ class C09Run(StateRun):
             if status == 'SUCCEEDED':
                 peer.finish(True)
             elif status in ('FAILED', 'CLOSED'):
+                if peer.state == 'done' and not peer.gone:
+                    # the stream had succeeded and is over now: Tor closes the SOCKS connection (its local port is free
+                    # for the next client from then on)
+                    self.sim.probe('socks-connection-closed-after-its-stream-ended')
+                    peer.conn.close()
                 peer.finish(False)
 
     def w_stream_new(self, via=None, sport=None, target=None, saddr='127.0.0.1'):
@@ -170,6 +184,9 @@ class C09Run(StateRun):
 
     def socks_request(self, peer, host, port, sport, saddr='127.0.0.1'):
         peer.sport = sport
+        # the world goes on for a while after a SOCKS request, so that its stream can be carried to its end (and the
+        # connection's local port be used again by someone else)
+        self.events_left += self.ch.draw(8, 'viaevents')
         s = StateRun.w_stream_new(self, sport=sport, target=(host, port), saddr=saddr)
         s.socks_peer = peer
         peer.stream = s
@@ -329,7 +346,33 @@ class C09Run(StateRun):
                     acts.append((1, 'remove-attacher', self.op_remove))
         elif self.via_left > 0:
             acts.append((3, 'via-connect', self.op_via))
+        acts.extend(self.via_stream_acts())
         return acts
+
+    def via_stream_acts(self):
+        acts = []
+        if self.mode == 'via' and self.via_moves_left > 0 and not self.tor.gone:
+            # the streams of SOCKS requests are carried on whatever the general event budget says: connected, used,
+            # closed - after which Tor closes the SOCKS connection and its local port is free for anyone
+            for s in sorted(self.streams.values(), key=lambda s: s.id):
+                if getattr(s, 'socks_peer', None) is None or s.gone:
+                    continue
+                if s.circ is None and getattr(s, 'tor_chooses', False) and s.status in ('NEW', 'DETACHED', 'CONTROLLER_WAIT'):
+                    built = [c for c in self.circs.values() if c.status == 'BUILT']
+                    if built:
+                        acts.append((2, 'w:via-stream-attach:%d' % s.id, lambda s=s, c=built[0]: self.via_move(lambda: self.w_stream_attach(s, c))))
+                elif s.circ is not None and not s.circ.gone and s.status == 'SENTCONNECT':
+                    acts.append((2, 'w:via-stream-succeed:%d' % s.id, lambda s=s: self.via_move(lambda: self.w_stream_set(s, 'SUCCEEDED'))))
+                elif s.circ is not None and not s.circ.gone and s.status == 'SUCCEEDED':
+                    acts.append((2, 'w:via-stream-close:%d' % s.id, lambda s=s: self.via_move(lambda: self.w_stream_set(s, 'CLOSED', reason='DONE'))))
+            if self.free_sports and len(self.streams) < 8:
+                acts.append((2, 'w:via-port-reused', lambda: self.via_move(lambda: self.w_stream_new())))
+        return acts
+
+    def via_move(self, fn):
+        self.via_moves_left -= 1
+        self.events_left += 1       # (each world move reports one event and charges the general budget for it)
+        fn()
 
     def op_install(self):
         self.attacher = self.make_attacher('first')
